@@ -295,14 +295,24 @@ bool Instance::eval(const size_t argc, char* const* argv) {
         fprintf(stderr, "error: invalid opcode %s\n", v);
         return false;
     }
+    // OP_CODESEPARATOR inside the temporary script must not leave the session's code-hash start pointing into it
+    const CScript::const_iterator saved_pbegincodehash = env->pbegincodehash;
+    bool ok = true;
     CScript::const_iterator it = script.begin();
-    while (it != script.end()) {
-        if (!StepScript(*env, it, &script)) {
-            fprintf(stderr, "Error: %s\n", ScriptErrorString(*env->serror).c_str());
-            return false;
+    try {
+        while (it != script.end()) {
+            if (!StepScript(*env, it, &script)) {
+                fprintf(stderr, "Error: %s\n", ScriptErrorString(*env->serror).c_str());
+                ok = false;
+                break;
+            }
         }
+    } catch (const std::exception& ex) {
+        fprintf(stderr, "Error: exception thrown: %s\n", ex.what());
+        ok = false;
     }
-    return true;
+    env->pbegincodehash = saved_pbegincodehash;
+    return ok;
 }
 
 bool Instance::configure_tx_txin() {
